@@ -313,7 +313,9 @@ def _alloc_candidates_multiple_providers(rg_ctx, rw_ctx, rp_candidates):
     # Get all the root resource provider IDs. We should include the first
     # values of rp_tuples because while sharing providers are root providers,
     # they have their "anchor" providers for the second value.
-    root_ids = rp_candidates.all_rps
+    # NOTE: a sharing provider need not be a root provider, so resolve every
+    # involved provider to the root of its tree.
+    root_ids = _root_ids_of(rg_ctx.context, rp_candidates.all_rps)
 
     # Get a dict, keyed by resource provider internal ID, of trait string names
     # that provider has associated with it
@@ -914,6 +916,16 @@ def _get_ancestors_by_one_uuid(
     ancestors.add(parent_uuid)
     return _get_ancestors_by_one_uuid(
         parent_uuid, parent_uuid_by_rp_uuid, ancestors=ancestors)
+
+
+@db_api.placement_context_manager.reader
+def _root_ids_of(context, rp_ids):
+    """Returns the set of internal IDs of the root providers of the trees the
+    given providers belong to.
+    """
+    sel = sa.select(_RP_TBL.c.root_provider_id).where(
+        _RP_TBL.c.id.in_(rp_ids)).distinct()
+    return set(r[0] for r in context.session.execute(sel).fetchall())
 
 
 def _provider_ids_from_root_ids(context, root_ids):
